@@ -59,12 +59,12 @@ GStep ==
   \/ CloseSocket /\ H(<<"CloseSocket">>)
   \/ Return /\ H(<<"Return", retRes>>)
   \/ \E a \in Att :
-       \/ ReaderRead(a) /\ H(<<"ReaderRead", ReadOutcome(a)>>)
-       \/ ReaderSeesCtx(a) /\ H(<<"ReaderSeesCtx">>)
-       \/ ReaderSeesDone(a) /\ H(<<"ReaderSeesDone">>)
-       \/ ReaderPublish(a) /\ H(<<"ReaderPublish">>)
-       \/ ReaderCloseErr(a) /\ H(<<"ReaderCloseErr">>)
-       \/ ReaderCloseEv(a) /\ H(<<"ReaderCloseEv">>)
+       \/ ReaderRead(a) /\ H(<<"ReaderRead", ReadOutcome(a), ToString(a)>>)
+       \/ ReaderSeesCtx(a) /\ H(<<"ReaderSeesCtx", ToString(a)>>)
+       \/ ReaderSeesDone(a) /\ H(<<"ReaderSeesDone", ToString(a)>>)
+       \/ ReaderPublish(a) /\ H(<<"ReaderPublish", ToString(a)>>)
+       \/ ReaderCloseErr(a) /\ H(<<"ReaderCloseErr", ToString(a)>>)
+       \/ ReaderCloseEv(a) /\ H(<<"ReaderCloseEv", ToString(a)>>)
   \/ ErrorCall /\ H(<<"ErrorCall", IF sErrChan = 0 THEN "immediate" ELSE "waits">>)
   \/ ErrorRecv /\ H(<<"ErrorRecv">>)
 
